@@ -56,12 +56,14 @@ func TestCheck(t *testing.T) {
 	r.Rule("case = one cluster (n in 3..7, t = ceil(2n/3), 1-3 validators with real threshold BLS keys) running one slot's duties (PRNG subset of attester, proposer+randao, sync-message, exit) on real nodes: " +
 		"qbft.NewConsensus + dutydb + validatorapi (secure) + parsigdb + parsigex (real Eth2 verifier) + sigagg (real verifier) + aggsigdb wired by core.Wire/WithAsyncRetry over an in-memory libp2p; " +
 		"per case the PRNG picks per-node candidate data (head roots, FFG checkpoints, blocks, sync block roots, exit epochs), late starts, beacon-node latency / no proposal, the delivery profile (delay, reordering, duplication, transient partition), " +
-		"up to f = floor((n-1)/3) faulty identities (crash = cut off at a PRNG envelope index, possibly mid fan-out; Byzantine = harness-driven identity with its real key shares sending equivocating / cross-fork / replayed / invalid partial signatures, with or without an honest stack), " +
+		"up to f = floor((n-1)/3) faulty identities (crash = cut off at a PRNG envelope index, possibly mid fan-out; Byzantine = harness-driven identity with its real key shares sending equivocating / cross-fork / replayed / invalid partial signatures, with or without an honest stack, " +
+		"half of them also misbehaving in consensus: two PRE-PREPAREs as round-1 leader, double PREPARE/COMMIT, ROUND-CHANGE noise), " +
 		"late replays and duty expiry followed by replays. A simulated VC per node signs exactly what its node serves. " +
 		"non-trivial = at least one broadcast AND at least one fault or divergence took effect (round change, differing candidate data, refused or equivocating partial signature, envelopes lost to a crash); " +
 		"distinct = hash of (n, roles, duty kinds, object versions, effects observed, broadcast pattern)")
 	r.Assume("oracle trusted base: go-eth2-client hash-tree-roots, the beacon mock's spec / genesis / fork schedule read back once per case, tbls.Verify (herumi); signing roots and domains are recomputed in the harness, not through core.VerifyEth2SignedData or eth2util/signing")
 	r.Assume("safety only: liveness of the pipeline is not claimed; a case that broadcasts nothing is trivial. Real round timers and real goroutine scheduling drive the workload; wall-clock only paces it")
+	r.Assume("six beacon mocks are shared by all cases (pre-electra / electra chain x three fork-schedule variants, 1 s slots, 16-slot epochs); each case adds its own validator set and runs the first slot that starts >= 0.4 s after the case is set up; the plan is drawn in logical node numbers and rotated by slot mod n so that QBFT leader election does not depend on the wall-clock slot; p2p identities come from a process-wide pool")
 	r.Assume("scheduler and fetcher are harness stubs (they trigger duties and supply each node's own candidate data); deadliners are harness stubs (nothing expires unless the case expires it); the consensus controller / priority protocol, tracker and the beacon-node submission itself are not part of the cluster")
 	r.Assume("precursor/* counters (honest nodes storing different decided values, mixed-root threshold sets, SigAgg refusing a threshold set) are informational: the statement does not forbid them, they show an inner defence giving way")
 	r.RacePkgs(false, "core/parsigdb", "core/parsigex", "core/sigagg", "core/aggsigdb", "core/dutydb", "core/consensus/qbft", "core/validatorapi")
@@ -137,7 +139,7 @@ func runCase(r *kit.Run, c *kit.Case, sampled *atomic.Int32) {
 			d := &byzDriver{w: w, idx: i, rng: r.Rand(c.Idx, 300+w.logical(i))}
 			drivers = append(drivers, d)
 			w.go_(func() { d.run(w.p.ByzActions) })
-			if w.p.ByzConsensus[i] {
+			if w.p.ByzConsensus[i] && os.Getenv("C01_NOBYZCONS") == "" {
 				bc := &byzCons{w: w, idx: i, rng: r.Rand(c.Idx, 400+w.logical(i))}
 				r.Count("byzcons/identities", 1)
 				w.go_(bc.run)
@@ -176,14 +178,23 @@ func runCase(r *kit.Run, c *kit.Case, sampled *atomic.Int32) {
 	// final phase: deliver everything still in flight, replay old messages, late Byzantine traffic,
 	// optionally expire duties on some nodes and replay again.
 	rf := r.Rand(c.Idx, 2)
+	mark := time.Now()
+	phase := func(name string) {
+		r.Count("pacing/phase_ms/"+name, time.Since(mark).Milliseconds())
+		mark = time.Now()
+	}
 	w.sched.flush(false)
+	phase("1-flush")
 	w.settle()
+	phase("2-settle")
 	replayed := w.sched.replay(rf, 8+rf.Intn(25))
+	phase("3-replay")
 	for _, d := range drivers {
 		for k := 0; k < 2; k++ {
 			d.act()
 		}
 	}
+	phase("4-byz-late")
 	if w.p.ExpireReplay {
 		for _, nd := range w.nodes {
 			if nd.bare || rf.Intn(2) == 0 {
@@ -202,8 +213,11 @@ func runCase(r *kit.Run, c *kit.Case, sampled *atomic.Int32) {
 			d.act()
 		}
 	}
+	phase("5-expire-replay")
 	w.sched.flush(true)
+	phase("6-flush")
 	w.settle()
+	phase("7-settle")
 	r.Count("pacing/case_end_ms_after_slot_start", time.Since(w.t0).Milliseconds())
 	if os.Getenv("C01_TRACE") != "" {
 		w.mon.mu.Lock()
@@ -221,7 +235,7 @@ func runCase(r *kit.Run, c *kit.Case, sampled *atomic.Int32) {
 func (w *world) settle() {
 	stable := 0
 	lastEv := -1
-	for i := 0; i < 120 && stable < 4; i++ {
+	for i := 0; i < 40 && stable < 4; i++ {
 		w.sched.flush(w.sched.isFlushing())
 		time.Sleep(12 * time.Millisecond)
 		w.mon.mu.Lock()
